@@ -118,6 +118,27 @@ func genC12(t *rapid.T) c12Case {
 		}
 		c.Clauses = append(c.Clauses, cl)
 	}
+	if gen.Maybe(t, 20, "optional-clause") {
+		// an OPTIONAL clause hung on the first subject binding (joined through the binding, its
+		// ID or its TYPE): LIMIT and ORDER BY must not change what it contributes to a row
+		oc := bq.Clause{Optional: true, S: bq.SPos{Binding: "?s0"}, P: bq.PPos{Binding: "?op"}, O: bq.OPos{Binding: "?oo"}}
+		switch gen.Uniform(t, 4, "optional-join") {
+		case 0:
+			p := model.PredSpec{ID: gen.Pick(t, u.PredIDs, "opid")}
+			oc.P = bq.PPos{Pred: &p}
+		case 1:
+			oc.S = bq.SPos{Binding: "?os", ID: "?sid0"}
+			if len(c.Clauses) > 0 && c.Clauses[0].S.ID == "" {
+				c.Clauses[0].S.ID = "?sid0"
+			}
+		case 2:
+			oc.S = bq.SPos{Binding: "?os", Type: "?sty0"}
+			if len(c.Clauses) > 0 && c.Clauses[0].S.Type == "" {
+				c.Clauses[0].S.Type = "?sty0"
+			}
+		}
+		c.Clauses = append(c.Clauses, oc)
+	}
 	if cs, renamed := avoidObjIDReuse(c.Clauses); renamed {
 		c.Clauses = cs
 		c.Excluded = append(c.Excluded, "KF-C03-OBJ-ID-UNCHECKED")
